@@ -4,11 +4,24 @@
 package rt
 
 import (
-	"github.com/cloudwego/base64x"
+	"encoding/base64"
 	_ "unsafe"
+
+	"github.com/cloudwego/base64x"
 )
 
 func DecodeBase64(raw []byte) ([]byte, error) {
+	if len(raw)%4 != 0 {
+		// Not a whole number of quanta: base64x would write more bytes than its
+		// DecodedLen reserves ("do=" -> 1 byte into a 0-byte buffer). Let
+		// encoding/base64 decide (it reports the corrupt input, or skips newlines).
+		ret := make([]byte, base64.StdEncoding.DecodedLen(len(raw)))
+		n, err := base64.StdEncoding.Decode(ret, raw)
+		if err != nil {
+			return nil, err
+		}
+		return ret[:n], nil
+	}
 	ret := make([]byte, base64x.StdEncoding.DecodedLen(len(raw)))
 	n, err := base64x.StdEncoding.Decode(ret, raw)
 	if err != nil {
